@@ -37,26 +37,26 @@ def rleTotal (runs : Bytes) : Nat := runs.foldl (fun acc r => acc + r.toNat + 1)
 
 /-! ### bit packing (valuearray.c:293-343, 477-526) -/
 
-/-- value of up to 8 bits, MSB first -/
+/-- value of a bit list, most significant bit first -/
 def bitsVal : List Bool → Nat
   | [] => 0
   | b :: bs => (if b then 1 else 0) * 2 ^ bs.length + bitsVal bs
 
+/-- one output byte from up to 8 bits: MSB first, the missing low bits are zero -/
+def byteOfBits (g : List Bool) : UInt8 := UInt8.ofNat (bitsVal (g ++ List.replicate (8 - g.length) false))
+
+/-- the 8 bits of a byte, MSB first (`value & 128`, then shift left) -/
+def bitsOfByte (x : UInt8) : List Bool := (List.range 8).map (fun j => (x.toNat / 2 ^ (7 - j)) % 2 = 1)
+
 /-- pack MSB-first, left-align the last partial byte (zero padded) -/
 def packBits : List Bool → Bytes
   | [] => []
-  | b :: bs =>
-    let grp := (b :: bs).take 8
-    UInt8.ofNat (bitsVal grp * 2 ^ (8 - grp.length)) :: packBits ((b :: bs).drop 8)
+  | b :: bs => byteOfBits ((b :: bs).take 8) :: packBits ((b :: bs).drop 8)
 termination_by l => l.length
 decreasing_by simp [List.length_drop]; omega
 
-def testBit (bits : Bytes) (i : Nat) : Bool :=
-  ((bits.getD (i / 8) 0).toNat / 2 ^ (7 - i % 8)) % 2 = 1
-
-/-- `sbdf_get_bitarray_values` loop -/
-def unpackBits (rows : Nat) (bits : Bytes) : List Bool :=
-  (List.range rows).map (testBit bits)
+/-- `sbdf_get_bitarray_values` loop: one output element per row, walking the bytes MSB first -/
+def unpackBits (rows : Nat) (bits : Bytes) : List Bool := (bits.flatMap bitsOfByte).take rows
 
 def boolByte (b : Bool) : Bytes := [if b then 1 else 0]
 
